@@ -804,3 +804,19 @@ func init() {
 		return []string{fr.vc.arrComp(types.Typ[types.Uint8]), "$alloc"}
 	}, doc: "strconv.AppendInt base 10"}
 }
+
+func init() {
+	nativeCalls["bytes.Equal"] = &nativeCall{exec: func(fr *Frame, cc *ssa.CallCommon, st *State, pos token.Pos) []Term {
+		vc := fr.vc
+		a := fr.byteSrc(cc.Args[0], st)
+		b := fr.byteSrc(cc.Args[1], st)
+		r := vc.fresh("byteseq")
+		vc.declare(r, "Bool")
+		w := vc.fresh("diffidx")
+		vc.declare(w, "Int")
+		// r  => equal lengths and equal at every index; !r => lengths differ or a witness index differs
+		vc.assume(fmt.Sprintf("(=> %s (and (= %s %s) (forall ((j Int)) (! (=> (and (<= 0 j) (< j %s)) (= (select %s (+ %s j)) (select %s (+ %s j)))) :pattern ((select %s (+ %s j)))))))", r, a.ln, b.ln, a.ln, a.arr, a.off, b.arr, b.off, a.arr, a.off))
+		vc.assume(fmt.Sprintf("(=> (not %s) (or (not (= %s %s)) (and (<= 0 %s) (< %s %s) (not (= (select %s (+ %s %s)) (select %s (+ %s %s)))))))", r, a.ln, b.ln, w, w, a.ln, a.arr, a.off, w, b.arr, b.off, w))
+		return []Term{{r, "Bool", types.Typ[types.Bool]}}
+	}, modifies: func(*Frame, *ssa.CallCommon) []string { return nil }, doc: "bytes.Equal"}
+}
